@@ -208,6 +208,9 @@ func runWait(c WCase, env *WEnv, info *WInfo, livep *[]*wtr) *vstat.Violation {
 				arg, w.argGen = s.ver, s.gen
 			case op.Ver == 1 && len(s.old) > 0:
 				arg = s.old[len(s.old)-1]
+			case op.Ver == 3:
+				arg = "" // the empty version: never the version of a record
+				info.class("empty_version")
 			case op.Ver >= 4 && alive(k) && s.ver != "":
 				arg = NearMiss(s.ver, op.Ver-4)
 				info.class("near_miss_version")
